@@ -42,23 +42,27 @@ struct SIMULATOR_DECL http_proxy
 private:
 
 	void on_accept(boost::system::error_code const& ec);
-	void on_read_request(boost::system::error_code const& ec, size_t bytes_transferred);
+	void on_read_request(int generation, boost::system::error_code const& ec
+		, size_t bytes_transferred);
 
 	void forward_request(http_request const& req);
 	void open_forward_connection(const asio::ip::tcp::endpoint& target);
-	void on_connected(boost::system::error_code const& ec);
+	void on_connected(int generation, boost::system::error_code const& ec);
 
-	void on_domain_lookup(boost::system::error_code const& ec
+	void on_domain_lookup(int generation, boost::system::error_code const& ec
 		, const asio::ip::tcp::resolver::results_type ips);
 
 	void write_server_send_buffer();
-	void on_server_write(boost::system::error_code const& ec, size_t bytes_transferred);
+	void on_server_write(int generation, boost::system::error_code const& ec
+		, size_t bytes_transferred);
 
-	void on_server_receive(boost::system::error_code const& ec
+	void on_server_receive(int generation, boost::system::error_code const& ec
 		, std::size_t bytes_transferred);
-	void on_server_forward(boost::system::error_code const& ec, size_t bytes_transferred);
+	void on_server_forward(int generation, boost::system::error_code const& ec
+		, size_t bytes_transferred);
 
 	void error(int code, char const* message);
+	void on_error_sent(int generation);
 	void close_connection();
 
 	asio::ip::tcp::resolver m_resolver;
@@ -94,6 +98,11 @@ private:
 
 	// set to true when shutting down
 	bool m_close;
+
+	// the number of client connections closed so far. Every asynchronous
+	// operation carries the value it was started with, to tell completions
+	// that belong to an earlier connection from those of the current one
+	int m_generation;
 };
 
 }
